@@ -182,6 +182,7 @@ class Recorder:
 
     # ---- construction / conversion -------------------------------------------------------------
     def from_array(self, a, common=None, mapping=None, counts=None):
+        raw = a
         a = np.asarray(a)
         args = {"a": nested(a), "shape": list(a.shape), "hascommon": common is not None, "common": V(common or 0),
                 "hasmapping": mapping is not None,
@@ -195,8 +196,8 @@ class Recorder:
             kw["mapping"] = mapping
         if counts is not None:
             kw["counts"] = counts
-        res = self._call(ev, lambda: self.iindex.from_array(a, **kw))
-        ev["memsame"] = digest([a, mapping, counts]) == before
+        res = self._call(ev, lambda: self.iindex.from_array(raw, **kw))       # the caller's own object (array of any dtype, or lists)
+        ev["memsame"] = digest([a, mapping, counts]) == before and (not isinstance(raw, np.ndarray) or digest(raw) == digest(a))
         self._finish(ev, ret=project(res) if res is not None else dict(NOREP),
                      desc=("from_array", a.tolist(), kw))
         return res
